@@ -330,3 +330,203 @@ def selftest():
     accounts = {rng.getrandbits(256): {'account': None, 'last_trans_hash': bytes(32), 'last_trans_lt': 7} for _ in range(5)}
     c = cell_of(enc_shard_accounts, accounts)
     assert c.bits[0] == '1' and len(c.refs) == 1
+
+
+# =============================================================================================== messages (C15)
+def enc_common_msg_info(w, m):
+    """int_msg_info$0 ihr_disabled:Bool bounce:Bool bounced:Bool src:MsgAddressInt dest:MsgAddressInt value:CurrencyCollection ihr_fee:Grams fwd_fee:Grams
+         created_lt:uint64 created_at:uint32
+       ext_in_msg_info$10 src:MsgAddressExt dest:MsgAddressInt import_fee:Grams
+       ext_out_msg_info$11 src:MsgAddressInt dest:MsgAddressExt created_lt:uint64 created_at:uint32"""
+    k = m['_']
+    if k == 'int_msg_info':
+        w.u(0, 1).bool(m['ihr_disabled']).bool(m['bounce']).bool(m['bounced'])
+        enc_msg_address(w, m['src'])          # the library also accepts addr_none here (src is filled in by the validator)
+        enc_msg_address(w, m['dest'])
+        enc_currency_collection(w, m['value'])
+        enc_grams(w, m['ihr_fee'])
+        enc_grams(w, m['fwd_fee'])
+        w.u(m['created_lt'], 64).u(m['created_at'], 32)
+    elif k == 'ext_in_msg_info':
+        w.u(2, 2)
+        enc_msg_address(w, m['src'])
+        enc_msg_address(w, m['dest'])
+        enc_grams(w, m['import_fee'])
+    elif k == 'ext_out_msg_info':
+        w.u(3, 2)
+        enc_msg_address(w, m['src'])
+        enc_msg_address(w, m['dest'])
+        w.u(m['created_lt'], 64).u(m['created_at'], 32)
+    else:
+        raise ValueError(k)
+
+
+def enc_message(w, msg, init_place='inline', body_place='inline'):
+    """message$_ {X:Type} info:CommonMsgInfo init:(Maybe (Either StateInit ^StateInit)) body:(Either X ^X) = Message X;   body is an RC cell"""
+    enc_common_msg_info(w, msg['info'])
+    if msg.get('init') is None:
+        w.u(0, 1)
+    else:
+        w.u(1, 1)
+        if init_place == 'inline':
+            w.u(0, 1)
+            enc_state_init(w, msg['init'])
+        else:
+            w.u(1, 1).sub(enc_state_init, msg['init'])
+    body = msg['body']
+    if body_place == 'inline':
+        w.u(0, 1).bits(body.bits)
+        for r in body.refs:
+            w.ref(r)
+    else:
+        w.u(1, 1).ref(body)
+
+
+class Rd:
+    """reader over an RC cell"""
+
+    def __init__(self, cell):
+        self.c, self.p, self.r = cell, 0, 0
+
+    def u(self, n):
+        if self.p + n > len(self.c.bits):
+            raise rc.RefError('read past the end of the cell')
+        v = int(self.c.bits[self.p:self.p + n], 2) if n else 0
+        self.p += n
+        return v
+
+    def i(self, n):
+        v = self.u(n)
+        return v - (1 << n) if n and v >> (n - 1) else v
+
+    def bytes(self, n):
+        return self.u(8 * n).to_bytes(n, 'big')
+
+    def ref(self):
+        if self.r >= len(self.c.refs):
+            raise rc.RefError('no reference left')
+        self.r += 1
+        return self.c.refs[self.r - 1]
+
+    def rest(self):
+        """the remaining part as a cell"""
+        return rc.RC(self.c.bits[self.p:], self.c.refs[self.r:])
+
+    def left(self):
+        return len(self.c.bits) - self.p, len(self.c.refs) - self.r
+
+
+def dec_var_uint(r, n):
+    ln = r.u((n - 1).bit_length())
+    return r.u(8 * ln)
+
+
+def dec_msg_address(r):
+    t = r.u(2)
+    if t == 0:
+        return None
+    if t == 1:
+        ln = r.u(9)
+        return {'len': ln, 'external_address': r.u(ln)}
+    if t == 2:
+        a = {}
+        if r.u(1):
+            d = r.u(5)
+            a['anycast'] = (d, r.u(d))
+        a['workchain_id'] = r.i(8)
+        a['address'] = r.bytes(32)
+        return a
+    raise rc.RefError('addr_var not covered')
+
+
+def dec_hashmap_e(r, width, dec_value):
+    if not r.u(1):
+        return {}
+    leaves, _, pruned = dictref.decode(r.ref(), width)
+    out = {}
+    for k, (bits, refs) in leaves.items():
+        out[int(k, 2)] = dec_value(Rd(rc.RC(bits, refs)))
+    return out
+
+
+def dec_currency_collection(r):
+    g = dec_var_uint(r, 16)
+    other = dec_hashmap_e(r, 32, lambda vr: dec_var_uint(vr, 32))
+    return {'grams': g, 'other': other}
+
+
+def dec_state_init(r):
+    s = {}
+    if r.u(1):
+        s['split_depth'] = r.u(5)
+    if r.u(1):
+        s['special'] = {'tick': bool(r.u(1)), 'tock': bool(r.u(1))}
+    for k in ('code', 'data', 'library'):
+        if r.u(1):
+            s[k] = r.ref()
+    return s
+
+
+def dec_common_msg_info(r):
+    if r.u(1) == 0:
+        m = {'_': 'int_msg_info', 'ihr_disabled': bool(r.u(1)), 'bounce': bool(r.u(1)), 'bounced': bool(r.u(1))}
+        m['src'] = dec_msg_address(r)
+        m['dest'] = dec_msg_address(r)
+        m['value'] = dec_currency_collection(r)
+        m['ihr_fee'] = dec_var_uint(r, 16)
+        m['fwd_fee'] = dec_var_uint(r, 16)
+        m['created_lt'] = r.u(64)
+        m['created_at'] = r.u(32)
+        return m
+    if r.u(1) == 0:
+        return {'_': 'ext_in_msg_info', 'src': dec_msg_address(r), 'dest': dec_msg_address(r), 'import_fee': dec_var_uint(r, 16)}
+    return {'_': 'ext_out_msg_info', 'src': dec_msg_address(r), 'dest': dec_msg_address(r), 'created_lt': r.u(64), 'created_at': r.u(32)}
+
+
+def dec_message(cell):
+    """-> (logical message, (init placement, body placement))"""
+    r = Rd(cell)
+    msg = {'info': dec_common_msg_info(r), 'init': None}
+    ip = None
+    if r.u(1):
+        if r.u(1):
+            ip = 'ref'
+            ir = Rd(r.ref())
+            msg['init'] = dec_state_init(ir)
+            if ir.left() != (0, 0):
+                raise rc.RefError('state-init cell has trailing data')
+        else:
+            ip = 'inline'
+            msg['init'] = dec_state_init(r)
+    if r.u(1):
+        bp = 'ref'
+        msg['body'] = r.ref()
+        if r.left() != (0, 0):
+            raise rc.RefError('message cell has trailing data after the body reference')
+    else:
+        bp = 'inline'
+        msg['body'] = r.rest()
+    return msg, (ip, bp)
+
+
+def norm_cc(cc):
+    return {'grams': cc['grams'], 'other': {k: v for k, v in (cc.get('other') or {}).items()}}
+
+
+def norm_msg(m):
+    """comparison form: cells by hash, currency dictionaries as plain dicts"""
+    def addr(a):
+        if a is None:
+            return None
+        return tuple(sorted(a.items()))
+    info = dict(m['info'])
+    for k in ('src', 'dest'):
+        info[k] = addr(info[k])
+    if 'value' in info:
+        info['value'] = norm_cc(info['value'])
+    init = None
+    if m.get('init') is not None:
+        init = {k: (v.hash if isinstance(v, rc.RC) else v) for k, v in m['init'].items() if v is not None}
+        if 'special' in init:
+            init['special'] = tuple(sorted(init['special'].items()))
+    return {'info': info, 'init': init, 'body': m['body'].hash}
